@@ -32,6 +32,7 @@ type Verifier struct {
 	pureNames   map[string]bool
 	preludes    map[string]string
 	Funcs       []*FuncReport
+	mutGlobals  map[*ssa.Package][]*ssa.Global
 }
 
 type FuncReport struct {
@@ -232,6 +233,9 @@ func (v *Verifier) verifyFunc(c *Contract) *FuncReport {
 		x.paramFacts(t, el)
 	}
 	x.analyseLoops()
+	if g := c.Options["globals"]; g != "" {
+		x.runPackageInits(g)
+	}
 	// preconditions
 	env := x.specEnvAt(nil, nil)
 	for _, r := range c.Requires {
@@ -395,19 +399,88 @@ func (x *Exec) paramFacts(t Term, ty types.Type) {
 // verifyLemma: a spec-level statement over contracts / prelude functions, no code.
 func (v *Verifier) verifyLemma(c *Contract) *FuncReport {
 	rep := &FuncReport{Name: "lemma:" + c.Name, Contract: c, Class: "P"}
+	fail := func(msg string) *FuncReport {
+		rep.Obligs = append(rep.Obligs, &Oblig{Name: rep.Name, Func: rep.Name, Kind: "lemma", Status: "failed", Output: msg, Props: c.Props})
+		return rep
+	}
 	x, err := v.newExec(nil, c)
 	if err != nil {
-		rep.Obligs = append(rep.Obligs, &Oblig{Name: rep.Name, Kind: "lemma", Status: "failed", Output: err.Error(), Props: c.Props})
+		return fail(err.Error())
+	}
+	x.lemmaName = rep.Name
+	env := &SpecEnv{vars: map[string]SpecVal{}, x: x, st: x.st, old: x.init, lets: c.Lets, lemma: true}
+	if p := c.Options["pkg"]; p != "" {
+		path := v.Module + "/" + p
+		sp := v.Pkgs[path]
+		if sp == nil {
+			return fail("package " + path + " is not loaded")
+		}
+		env.pkg = sp.Pkg
+		env.spkg = sp
+	}
+	if c.Lemma != nil { // one-line form
+		t, err := x.evalSpecLemma(c.Lemma.E, env)
+		if err != nil {
+			return fail(err.Error())
+		}
+		rep.Obligs = append(rep.Obligs, &Oblig{Name: rep.Name, Func: rep.Name, Kind: "lemma", Goal: t, NLines: len(x.smt.lines), Src: c.Lemma.Src, ex: x, Props: c.Props})
 		return rep
 	}
-	env := &SpecEnv{vars: map[string]SpecVal{}, x: x, st: x.st, old: x.init, lets: c.Lets}
-	t, err := x.evalSpecLemma(c.Lemma.E, env)
-	if err != nil {
-		rep.Obligs = append(rep.Obligs, &Oblig{Name: rep.Name, Kind: "lemma", Status: "failed", Output: err.Error(), Props: c.Props})
-		return rep
+	// block form: params are free constants (the lemma is universally quantified over them)
+	x.getSV("alloc", "Int")
+	if g := c.Options["globals"]; g != "" {
+		x.runPackageInits(g)
 	}
-	o := &Oblig{Name: rep.Name, Func: rep.Name, Kind: "lemma", Goal: t, NLines: len(x.smt.lines), Src: c.Lemma.Src, ex: x, Props: c.Props}
-	rep.Obligs = append(rep.Obligs, o)
+	for _, p := range c.Params {
+		name, so := p, "Int"
+		if i := strings.Index(p, ":"); i >= 0 {
+			name, so = p[:i], p[i+1:]
+		}
+		var gt types.Type
+		switch so {
+		case "string":
+			so, gt = "Str", types.Typ[types.String]
+		case "bytes":
+			so, gt = "Str", types.NewSlice(types.Typ[types.Byte])
+		case "int":
+			so, gt = "Int", types.Typ[types.Int]
+		case "byte":
+			so, gt = "Int", types.Typ[types.Byte]
+		case "float64":
+			so, gt = "F64", types.Typ[types.Float64]
+		case "bool":
+			so, gt = "Bool", types.Typ[types.Bool]
+		}
+		n := smtName("p." + name)
+		x.smt.emit(fmt.Sprintf("(declare-const %s %s)", n, so))
+		if gt != nil {
+			x.paramFacts(n, gt)
+		}
+		env.vars[name] = SpecVal{V: tv(n), Go: gt}
+	}
+	for _, r := range c.Requires {
+		t, err := x.evalSpecLemma(r.E, env)
+		if err != nil {
+			return fail(r.Name + ": " + err.Error())
+		}
+		x.smt.assume(t)
+	}
+	for _, e := range c.Ensures {
+		t, err := x.evalSpecLemma(e.E, env)
+		if err != nil {
+			rep.Obligs = append(rep.Obligs, &Oblig{Name: rep.Name + "#" + e.Name, Func: rep.Name, Kind: "lemma", Status: "failed", Output: "clause could not be evaluated against the current code: " + err.Error(), Src: e.Src, Props: c.Props})
+			continue
+		}
+		rep.Obligs = append(rep.Obligs, &Oblig{Name: rep.Name + "#" + e.Name, Func: rep.Name, Kind: "lemma", Goal: t, NLines: len(x.smt.lines), Src: e.Src, ex: x, Props: c.Props})
+	}
+	if len(x.classA) > 0 {
+		rep.Class = "A"
+		rep.ClassWhy = x.classA
+	}
+	rep.Unmodelled = x.unmodelled
+	rep.SMTLines = len(x.smt.lines)
+	// vacuity: the hypotheses must be satisfiable
+	rep.Canary = &Oblig{Name: rep.Name + "#canary", Func: rep.Name, Kind: "canary", Goal: "false", NLines: len(x.smt.lines), ex: x, Canary: true, Props: c.Props}
 	return rep
 }
 
@@ -432,6 +505,9 @@ func (v *Verifier) selectContracts(prop string) ([]*Contract, []string) {
 		cs = append(cs, c)
 		if c.Kind == "func" {
 			dirs[c.Dir] = true
+		}
+		if p := c.Options["pkg"]; p != "" {
+			dirs[p] = true
 		}
 		if l := c.Options["load"]; l != "" {
 			for _, d := range strings.Split(l, ",") {
